@@ -579,6 +579,10 @@ class TaskScenario(ScenarioData):
                 if end_date:
                     # For ALAP, start from the last working slot BEFORE the end date
                     self.currentSlotIdx = self.project.dateToIdx(end_date) - 1
+                    if self.currentSlotIdx >= self.project.scoreboardSize():
+                        # The deadline lies beyond the scheduling horizon
+                        self.isRunAway = True
+                        return False
                     # Find the last working slot
                     # For effort tasks with allocations, check resource availability
                     # (respects resource timezone and working hours)
@@ -600,6 +604,14 @@ class TaskScenario(ScenarioData):
                     else:
                         while self.currentSlotIdx > lowerLimit and not self.isWorkingTime(self.currentSlotIdx):
                             self.currentSlotIdx -= 1
+
+        # A dependency bound or a pinned date outside the scheduling horizon cannot be
+        # served: give up on this task instead of indexing past the scoreboards.
+        if self.currentSlotIdx < self.project.dateToIdx(self.project["start"]) or (
+            self.currentSlotIdx > self.project.dateToIdx(self.project["end"])
+        ):
+            self.isRunAway = True
+            return False
 
         # For effort tasks with allocations, don't set start yet - it will be set
         # when first resource is booked. For non-effort tasks, find first working slot.
